@@ -292,11 +292,18 @@ func FormatLuaResult(id string, res LuaResult) string {
 }
 
 // LuaEngine is the stdin/stdout loop of the "lua" engine.
+// ExtraSetup, if not nil, is applied to the fresh runtime of every case of the "lua" engine (the clock build
+// uses it to give programs a setclock function).
+var ExtraSetup func(r *rt.Runtime)
+
 func LuaEngine(in *bufio.Scanner, out *bufio.Writer, args []string) {
 	for in.Scan() {
 		lc, ok := ParseLuaCase(in.Text())
 		if !ok {
 			continue
+		}
+		if lc.Setup == nil {
+			lc.Setup = ExtraSetup
 		}
 		res := RunLuaCase(lc)
 		fmt.Fprintln(out, FormatLuaResult(lc.Id, res))
